@@ -216,8 +216,66 @@ def unit_canary():
     return Unit('canary/conjugate-without-reciprocal', run, kind='canary', expect='refuted')
 
 
+def unit_lp_pair(cname, pkind):
+    """LpNorm <-> IndicatorLpUnitBall: the conjugate is the partner functional with the DUAL exponent q, 1/p + 1/q = 1 (1 <-> inf)"""
+    def run(ctx):
+        I = ctx.I
+
+        def path(st):
+            flib.install(st, 'gram')
+            fr = ip.Frame(st)
+            X = makers.tspace(I, st, 'X', 'real')
+            made = []
+
+            def mk(cn):
+                def ctor(I_, fr_, self, space=None, exponent=None, **kw):
+                    self.fields['ctor'] = (cn, space, {'L1Norm': 1.0, 'L2Norm': 2.0}.get(cn, exponent))
+                    made.append(self)
+                return ctor
+            for cn in ('LpNorm', 'IndicatorLpUnitBall', 'L1Norm', 'L2Norm'):
+                st.cuts[DF + cn + '.__init__'] = mk(cn)
+            st.cuts.update(oplib.operator_cuts())
+            if pkind == 'sym':
+                p = S(z3.Real('p'))
+                st.assume(p > 1)
+                st.assume(core.s_not(core.sbool(core.sc_eq(p, 2))))
+            else:
+                p = {'1': 1.0, '2': 2.0, 'inf': float('inf')}[pkind]
+            f = ip.Obj(I.get_class(DF + cname))
+            f.fields.update({'_Operator__domain': X.space, '_Operator__range': FieldSpec(I, 'real').space, 'exponent': p, '_IndicatorLpUnitBall__exponent': p})
+            try:
+                cc = I._getattr(f, 'convex_conj', fr)
+            except ip.PyRaise as e:
+                return ('raise', e.exc)
+            return ('ok', (cc, p, X))
+        info = {'class': cname, 'p': pkind}
+        for st, (status, r) in ctx.explore(path):
+            if status == 'raise':
+                ctx.fail(st, 'convex_conj does not raise', 'raises %s' % lib.exc_desc(r), info)
+                continue
+            cc, p, X = r
+            ok = isinstance(cc, ip.Obj) and 'ctor' in cc.fields
+            ctx.prove(st, 'convex_conj is built by a constructor of the Lp family', ok, info)
+            if not ok:
+                continue
+            cn, space, q = cc.fields['ctor']
+            partner = ('IndicatorLpUnitBall',) if cname == 'LpNorm' else ('LpNorm', 'L1Norm', 'L2Norm')
+            ctx.prove(st, 'convex_conj: partner class on the same space', cn in partner and space is X.space, dict(info, got=cn))
+            if pkind == '1':
+                ctx.prove(st, 'convex_conj: dual exponent of 1 is inf', q == float('inf'), dict(info, got=q))
+            elif pkind == 'inf':
+                ctx.prove(st, 'convex_conj: dual exponent of inf is 1', q == 1.0, dict(info, got=q))
+            else:
+                qq = core.S.lift(q)
+                ctx.prove(st, 'convex_conj: dual exponent  1/p + 1/q == 1', core.sc_eq(qq + core.S.lift(p), qq * core.S.lift(p)), dict(info, got=str(q)))
+    return Unit('builtin/lp-pair/%s/p=%s' % (cname, pkind), run, funcs=[DF + cname + '.convex_conj', 'odl.util.utility:conj_exponent'], config={'class': cname, 'p': pkind})
+
+
 def units(tier, seed):
     us = [unit_conj(k) for k in KINDS]
+    for cn in ('LpNorm', 'IndicatorLpUnitBall'):
+        for pk in ('sym', '1', '2', 'inf'):
+            us.append(unit_lp_pair(cn, pk))
     us.append(unit_moreau())
     us.append(unit_pair_l2sq())
     us.append(unit_canary())
